@@ -5,7 +5,7 @@ import json, subprocess, sys, os
 from pathlib import Path
 wt = Path(sys.argv[1])
 PLAN = {"h1-conn-timezone-first.diff": ["C14", "C19", "C18", "C03"], "h2-merge-cosmetic.diff": ["C12", "C02"], "h3-fetchall-remaining.diff": ["C05", "C06"],
-        "h4-refactor-locals.diff": ["C09", "C11", "C19"]}
+        "h4-refactor-locals.diff": ["C09", "C11", "C19"], "h5-variables-splitter-restructured.diff": ["C15", "C16", "C08", "C01"]}
 def sh(c, **kw): return subprocess.run(c, shell=True, capture_output=True, text=True, **kw)
 head = sh("git -C /repo rev-parse HEAD").stdout.strip()
 out = {}
